@@ -351,6 +351,12 @@ pub fn check_summary(case: &SummaryCase, cov: &mut Cov) -> CheckResult {
     Ok(())
 }
 
+fn stats_same(a: &RunStats, b: &RunStats) -> bool {
+    let f = |x: f32, y: f32| x.to_bits() == y.to_bits() || (x.is_nan() && y.is_nan()) || ((x - y).abs() <= 1e-5 * x.abs().max(y.abs()));
+    let g = |p: &mini_mcmc::stats::BasicStats, q: &mini_mcmc::stats::BasicStats| f(p.min, q.min) && f(p.max, q.max) && f(p.mean, q.mean) && f(p.median, q.median) && (f(p.std, q.std) || (p.std - q.std).abs() <= 1e-4 * p.mean.abs());
+    g(&a.ess, &b.ess) && g(&a.rhat, &b.rhat)
+}
+
 /// RunStats::from on generated arrays incl. constant parameters: never panics; when all
 /// per-parameter diagnostics are finite the summary equals the statistics of those values.
 pub fn check_runstats(case: &ArrCase, cov: &mut Cov) -> CheckResult {
@@ -359,6 +365,39 @@ pub fn check_runstats(case: &ArrCase, cov: &mut Cov) -> CheckResult {
     let rs_ = no_panic(|| RunStats::from(arr.view()))
         .map_err(|m| Fail::new("runstats-panic", format!("RunStats::from panicked: {m}")))?;
     let (rhat, ess) = lib_rhat_ess(&arr)?;
+    // the same logical array in other memory layouts (views of permuted / Fortran-ordered /
+    // strided storage are ordinary ArrayView3 values): diagnostics must not depend on layout
+    {
+        use ndarray::ShapeBuilder;
+        let (c, n, p) = arr.dim();
+        let f_order: Array3<f32> = Array3::from_shape_fn((c, n, p).f(), |i| arr[i]);
+        let draws_major: Array3<f32> = Array3::from_shape_fn((n, c, p), |(k, ch, q)| arr[[ch, k, q]]);
+        let permuted = draws_major.view().permuted_axes([1, 0, 2]);
+        let wide: Array3<f32> = Array3::from_shape_fn((c, n, 2 * p), |(ch, k, q)| if q % 2 == 0 { arr[[ch, k, q / 2]] } else { -7.5 });
+        let strided = wide.slice(ndarray::s![.., .., ..;2]);
+        let f64_view = arr.mapv(|v| v as f64);
+        for (name, v) in [("fortran-order", f_order.view()), ("permuted-axes", permuted), ("strided", strided)] {
+            let alt = no_panic(|| RunStats::from(v)).map_err(|m| Fail::new("runstats-panic", format!("RunStats::from panicked on a {name} view: {m}")))?;
+            ensure!(
+                stats_same(&alt, &rs_),
+                "runstats-layout-dependent",
+                "RunStats::from gives {:?} for a {name} view but {:?} for the same array in standard layout",
+                alt,
+                rs_
+            );
+            let (r2, e2) = {
+                let r = no_panic(|| split_rhat_mean_ess(v)).map_err(|m| Fail::new("rhat-panic", format!("split_rhat_mean_ess panicked on a {name} view: {m}")))?;
+                (r.0.to_vec(), r.1.to_vec())
+            };
+            for q in 0..p {
+                let same = |a: f64, b: f32| (a as f32).to_bits() == b.to_bits() || (a.is_nan() && b.is_nan()) || (a - b as f64).abs() <= 1e-5 * a.abs();
+                ensure!(same(rhat[q], r2[q]) && same(ess[q], e2[q]), "rhat-layout-dependent", "param {q}: ({}, {}) for a {name} view vs ({}, {}) in standard layout", r2[q], e2[q], rhat[q], ess[q]);
+            }
+        }
+        let alt = RunStats::from(f64_view.view());
+        ensure!(stats_same(&alt, &rs_), "runstats-layout-dependent", "RunStats::from of the f64 copy differs from that of the f32 array");
+        cov.class("layouts-compared");
+    }
     for (name, vals, bs) in [("rhat", &rhat, &rs_.rhat), ("ess", &ess, &rs_.ess)] {
         if vals.iter().all(|x| x.is_finite()) {
             let mut s = vals.clone();
